@@ -108,6 +108,11 @@ func generate(w *mon.W) {
 	for _, s := range seeds {
 		do(s)
 	}
+	for _, kind := range gen.WideKinds {
+		for _, n := range append(append([]int{}, gen.WideSizes...), 512, 1000) {
+			do(pqlref.Print(gen.Wide(kind, n), pqlref.Layout{Mode: 1}).Src)
+		}
+	}
 	// The known finding: exponential let expansion (demonstrated, expected to
 	// take the worker down; the coordinator attributes it by key).
 	do("let a = 1;" + strings.Repeat("let a = a + a;", 40) + "T | where a")
